@@ -65,7 +65,9 @@ def select_forms_part(ctx):
         names = rng.sample(outputs, rng.randint(1, 3))
         if rng.random() < 0.5:
             names.insert(rng.randrange(len(names) + 1), rng.choice(["x", "b", "typo"]))      # not an output
-        form = rng.choice(["list", "tuple"] + (["str"] if len(names) == 1 else []))
+        if rng.random() < 0.25:
+            names = [rng.choice(outputs + ["x", "b", "typo"])]        # one bare name, an output or not
+        form = rng.choice(["list", "tuple"] + (["str", "str"] if len(names) == 1 else []))
         sel = list(names) if form == "list" else tuple(names) if form == "tuple" else names[0]
         is_async = rng.random() < 0.4
         inputs = {"x": rng.randint(0, 3), "b": rng.randint(0, 3)}
